@@ -1,8 +1,167 @@
 import RisorModel.Util
-/-! Line-protocol front end of the C05 model (stub until the model exists). -/
+import RisorModel.C05.Model
+/-!
+Line-protocol front end of the C05 model (requests after the leading `C05` field).
+
+  frag <globals,comma-separated> <program tokens>     → ok <code text> <constants> <result> <stdout hex>
+  sortedKeys <hex,hex,…>                               → sorted hex list
+  setSorted <i:n|s:hex,…>                              → items in SortedItems order
+  visit <perm> <hex,hex,…>                             → the entries in the adversary's order (Environ, StringKeys)
+  firstFailure <perm> <ok|e<id>,…>                     → id of the failure that is reported, or none
+  overrides <perm> <name=ok|name=bad,…>                → the names whose override is applied (sorted)
+
+Program tokens (prefix notation, separated by single spaces):
+  prog  := <nstmts> stmt* expr          stmt := d <name> expr | e expr
+  expr  := i <int> | s <hex> | t | f | n | v <name> | + expr expr | x expr expr
+         | p <k> expr*k | l <k> expr*k | S <k> expr*k | m <k> <perm> (<keyhex> expr)*k
+  perm  := - | i.j.k…   (the adversary's visiting order for that map literal)
+-/
 namespace Risor.C05
+open Risor.Util
+
+def parsePerm (s : String) : List Nat :=
+  if s = "-" then [] else (s.splitOn ".").filterMap String.toNat?
+
+def hexStr (s : String) : Option String := (fromHex s).map bytesStr
+
+/-- inverse of `bytesStr` (one character per byte) -/
+def rawBytes (s : String) : List Nat := s.toList.map (·.toNat)
+
+mutual
+  def parseE : Nat → List String → Option (Expr × List String)
+    | 0, _ => none
+    | _ + 1, "i" :: n :: r => n.toInt?.map fun n => (.int n, r)
+    | _ + 1, "s" :: h :: r => (hexStr h).map fun s => (.str s, r)
+    | _ + 1, "t" :: r => some (.tru, r)
+    | _ + 1, "f" :: r => some (.fls, r)
+    | _ + 1, "n" :: r => some (.nil, r)
+    | _ + 1, "v" :: x :: r => some (.var x, r)
+    | fuel + 1, "+" :: r => do
+      let (a, r1) ← parseE fuel r
+      let (b, r2) ← parseE fuel r1
+      pure (.add a b, r2)
+    | fuel + 1, "x" :: r => do
+      let (a, r1) ← parseE fuel r
+      let (b, r2) ← parseE fuel r1
+      pure (.index a b, r2)
+    | fuel + 1, "p" :: k :: r => do
+      let (xs, r1) ← parseItems fuel (← k.toNat?) r
+      pure (.print xs, r1)
+    | fuel + 1, "l" :: k :: r => do
+      let (xs, r1) ← parseItems fuel (← k.toNat?) r
+      pure (.list xs, r1)
+    | fuel + 1, "S" :: k :: r => do
+      let (xs, r1) ← parseItems fuel (← k.toNat?) r
+      pure (.set xs, r1)
+    | fuel + 1, "m" :: k :: perm :: r => do
+      let (es, r1) ← parseEntries fuel (← k.toNat?) r
+      pure (.map (parsePerm perm) es, r1)
+    | _ + 1, _ => none
+  def parseItems : Nat → Nat → List String → Option (Items × List String)
+    | 0, _, _ => none
+    | _ + 1, 0, r => some (.nil, r)
+    | fuel + 1, k + 1, r => do
+      let (e, r1) ← parseE fuel r
+      let (xs, r2) ← parseItems fuel k r1
+      pure (.cons e xs, r2)
+  def parseEntries : Nat → Nat → List String → Option (Entries × List String)
+    | 0, _, _ => none
+    | _ + 1, 0, r => some (.nil, r)
+    | fuel + 1, k + 1, h :: r => do
+      let key ← hexStr h
+      let (e, r1) ← parseE fuel r
+      let (xs, r2) ← parseEntries fuel k r1
+      pure (.cons key e xs, r2)
+    | _ + 1, _ + 1, [] => none
+end
+
+def parseStmts : Nat → Nat → List String → Option (List Stmt × List String)
+  | _, 0, r => some ([], r)
+  | fuel, k + 1, "d" :: x :: r => do
+    let (e, r1) ← parseE fuel r
+    let (ss, r2) ← parseStmts fuel k r1
+    pure (.decl x e :: ss, r2)
+  | fuel, k + 1, "e" :: r => do
+    let (e, r1) ← parseE fuel r
+    let (ss, r2) ← parseStmts fuel k r1
+    pure (.expr e :: ss, r2)
+  | _, _ + 1, _ => none
+
+def parseProg (s : String) : Option Prog :=
+  match s.splitOn " " with
+  | k :: r => do
+    let fuel := r.length + 2
+    let (ss, r1) ← parseStmts fuel (← k.toNat?) r
+    let (e, r2) ← parseE fuel r1
+    if r2.isEmpty then pure ⟨ss, e⟩ else none
+  | [] => none
+
+def insText : Ins → String
+  | .loadConst i => s!"LOAD_CONST:{i}"
+  | .loadGlobal i => s!"LOAD_GLOBAL:{i}"
+  | .storeGlobal i => s!"STORE_GLOBAL:{i}"
+  | .binAdd => "BINARY_OP:1"
+  | .tru => "TRUE" | .fls => "FALSE" | .nil => "NIL"
+  | .buildList n => s!"BUILD_LIST:{n}"
+  | .buildMap n => s!"BUILD_MAP:{n}"
+  | .buildSet n => s!"BUILD_SET:{n}"
+  | .subscr => "BINARY_SUBSCR"
+  | .call n => s!"CALL:{n}"
+  | .popTop => "POP_TOP"
+  | .undefined x => s!"UNDEFINED:{x}"
+
+def constText : Const → String
+  | .int n => s!"i:{n}"
+  | .str s => "s:" ++ toHexField (strBytes s)
+
+def orDash (s : String) : String := if s.isEmpty then "-" else s
 
 def handle : List String → String
-  | _ => "error\tnot-implemented"
+  | ["frag", globals, prog] =>
+    match parseProg prog with
+    | none => "error\tbad-program"
+    | some p =>
+      let names := if globals = "-" then [] else globals.splitOn ","
+      let c := compile names p
+      let (res, out) := evalCode c
+      let r := match res with
+        | .ok v => "v:" ++ toHexField (strBytes (inspect v))
+        | .error e => "e:" ++ e
+      "ok\t" ++ orDash (" ".intercalate (c.ins.map insText)) ++ "\t"
+        ++ orDash (" ".intercalate (c.consts.map constText)) ++ "\t" ++ r ++ "\t"
+        ++ toHexField (strBytes (String.join out)) ++ "\t" ++ toString p.noBigMap
+  | ["sortedKeys", ks] =>
+    match (if ks = "-" then some [] else (ks.splitOn ",").mapM hexStr) with
+    | some ks => orDash (",".intercalate ((sortedKeys ks).map fun k => toHexField (rawBytes k)))
+    | none => "error\tbad-hex"
+  | ["setSorted", items] =>
+    let parse (s : String) : Option Val :=
+      if s.startsWith "i:" then (s.drop 2).toString.toInt?.map Val.int
+      else if s.startsWith "s:" then (hexStr (s.drop 2).toString).map Val.str
+      else if s = "t" then some (.bool true) else if s = "f" then some (.bool false)
+      else if s = "n" then some .nil else none
+    match (if items = "-" then some [] else (items.splitOn ",").mapM parse) with
+    | some vs =>
+      match vs.foldlM setAdd [] with
+      | some xs => orDash (", ".intercalate ((sortSet xs).map inspect))
+      | none => "error\tunhashable"
+    | none => "error\tbad-item"
+  | ["visit", perm, es] =>
+    let l := if es = "-" then [] else es.splitOn ","
+    orDash (",".intercalate (inVisitingOrder id (applyPerm (parsePerm perm) l)))
+  | ["firstFailure", perm, es] =>
+    let l := if es = "-" then [] else es.splitOn ","
+    match firstFailure (fun (s : String) => if s = "ok" then none else some s) (applyPerm (parsePerm perm) l) with
+    | some e => e
+    | none => "none"
+  | ["overrides", perm, es] =>
+    let l := (if es = "-" then [] else es.splitOn ",").map fun (s : String) =>
+      match s.splitOn "=" with
+      | [k, "ok"] => (k, some k)
+      | k :: _ => (k, none)
+      | [] => ("", none)
+    let m := applyOverrides (applyPerm (parsePerm perm) l) AMap.empty
+    orDash (",".intercalate (sortedKeys ((l.map (·.1)).filter fun k => (m k).isSome)))
+  | _ => "error\tunknown-request"
 
 end Risor.C05
